@@ -1,5 +1,5 @@
 """C17 -- assembly paths, worker schedules and the disk cache (E7, E8)."""
-from .. import effects, indexing
+from .. import effects, indexing, causal
 
 LEVEL = 'other'
 META = {
@@ -29,6 +29,8 @@ def run(prog, report, tier):
     effects.check_pools(prog, report)
     effects.check_samecall(prog, report)
     effects.check_cache(prog, report)
+    effects.check_reductions(prog, report)
+    causal.run_prefilters(prog, report)
     report.assumptions += [
         'the fork start method is used (example.py sets it; default on '
         'Linux)',
